@@ -69,6 +69,11 @@ type Pool struct {
 	// Ramp: the startup profile is Instances at once and then 5 more per second for 3 s, so that it
 	// is still releasing instances when the (small) ammo supply runs out under a paced profile
 	Ramp bool `json:"startup_ramp,omitempty"`
+	// Queued: the provider queues its whole supply at once and its Run returns before anything was
+	// taken; LateStartup: the startup profile begins with a pause (0 instances for 40 ms), so
+	// the provider is through before the first instance exists
+	Queued      bool `json:"provider_queues_everything_at_once,omitempty"`
+	LateStartup bool `json:"startup_begins_with_a_pause,omitempty"`
 	// FromConfig: the rps section is written as config (a list of mappings) and the schedule
 	// factory is the one the config decoder builds, as in a real run
 	FromConfig bool `json:"rps_from_config,omitempty"`
@@ -186,6 +191,12 @@ func genPool(rng *rand.Rand) Pool {
 		p.Ammo = map[string]int{"T-1": T - 1, "T+N": T + p.Instances, "10T": 10 * T}[p.AmmoClass]
 		p.Procs = 16
 	}
+	if p.Ammo > 0 && p.Ammo <= 20000 && rng.Intn(4) == 0 {
+		p.Queued = true
+		p.LateStartup = rng.Intn(2) == 0
+	} else if rng.Intn(10) == 0 {
+		p.LateStartup = true
+	}
 	if rng.Intn(8) == 0 {
 		// ammo runs out under a paced profile while instances are still being started
 		p.Ramp, p.StartupConst, p.PreStartMs = true, false, 0
@@ -202,6 +213,9 @@ func genPool(rng *rand.Rand) Pool {
 
 func runPool(res *vkit.Result, p Pool) {
 	prov := &vkit.MockProvider{Items: p.Ammo, FailAfter: -1}
+	if p.Queued {
+		prov.Buffer = p.Ammo
+	}
 	aggr := &vkit.MockAggregator{}
 	plan := vkit.NewGunPlan()
 	plan.Closer = p.Seed%2 == 0
@@ -254,6 +268,9 @@ func runPool(res *vkit.Result, p Pool) {
 	}
 	if p.Ramp {
 		startup = schedule.NewComposite(schedule.NewOnce(int64(p.Instances)), schedule.NewConst(5, 3*time.Second))
+	}
+	if p.LateStartup {
+		startup = schedule.NewComposite(schedule.NewConst(0, 40*time.Millisecond), startup)
 	}
 	if p.GunTimeout {
 		plan.NewGunErrAt = 1 // call 0 is the engine's warm-up gun
@@ -391,6 +408,9 @@ var seeds = []Pool{
 	{Instances: 3, PerInstance: false, RPS: SchedSpec{Kind: "const", A: 20, DurMs: 3000}, Ammo: 12, AmmoClass: "ramp", Ramp: true, Seed: 9},
 	{Instances: 3, PerInstance: true, RPS: SchedSpec{Kind: "const", A: 20, DurMs: 3000}, Ammo: 12, AmmoClass: "ramp", Ramp: true, Seed: 10},
 	{Instances: 5, PerInstance: false, RPS: SchedSpec{Kind: "line", A: 10, B: 60, DurMs: 2000}, Ammo: 9, AmmoClass: "ramp", Ramp: true, ShotMaxUs: 2000, Seed: 11},
+	{Instances: 2, PerInstance: false, RPS: SchedSpec{Kind: "once", N: 5}, Ammo: 5, AmmoClass: "T", Queued: true, LateStartup: true, Seed: 16},
+	{Instances: 3, PerInstance: true, RPS: SchedSpec{Kind: "const", A: 200, DurMs: 50}, Ammo: 40, AmmoClass: "T+N", Queued: true, LateStartup: true, Seed: 17},
+	{Instances: 4, PerInstance: false, RPS: SchedSpec{Kind: "once", N: 30}, Ammo: 12, AmmoClass: "T-1", Queued: true, StartupConst: true, Seed: 18},
 }
 
 // sharedProfileExhaustion: what the instances of a pool do with their shared profile, without the
